@@ -56,6 +56,17 @@ Proof.
   exact (H c (nrange_In _ _ Hc)).
 Qed.
 
+(* pairs are stored / loaded for the callee-saved registers x19..x28, the frame pointer and the link register *)
+Definition creg (r : N) : Prop := 19 <= r /\ r <= 30.
+Lemma pair_spec (F : N -> N -> N -> bool) :
+  all3 12 12 128 (fun a' b' i => F (19 + a') (19 + b') i) = true ->
+  forall a b i, creg a -> creg b -> i < 128 -> F a b i = true.
+Proof.
+  intros H a b i [Ha1 Ha2] [Hb1 Hb2] Hi.
+  pose proof (all3_spec _ _ _ _ H (a - 19) (b - 19) i ltac:(lia) ltac:(lia) ltac:(lia)) as E. cbv beta in E.
+  replace (19 + (a - 19)) with a in E by lia. replace (19 + (b - 19)) with b in E by lia. exact E.
+Qed.
+
 (* the bit fields every analyser looks at, for the four pair forms *)
 Definition pair_fields (opc wb : N) (a b i7 : N) : bool :=
   let w := enc_pair opc a b i7 in
@@ -69,18 +80,22 @@ Definition is_pvl (t : pro_itype) : bool := match t with PVeryLikely => true | _
 Definition is_pws (t : pro_itype) : bool := match t with PCouldBeWithSub => true | _ => false end.
 Definition is_evl (t : epi_itype) : bool := match t with EVeryLikely => true | _ => false end.
 
-Lemma stp_pre_fields_all : all3 32 32 128 (fun a b i => pair_fields 2843738112 3 a b i &&
-   (N.land (N.shiftr (enc_stp_pre a b i) 22) 761 =? 672) && is_pvl (a_pro_itype (enc_stp_pre a b i))) = true.
+Definition stp_pre_ok (a b i : N) : bool := pair_fields 2843738112 3 a b i &&
+   (N.land (N.shiftr (enc_stp_pre a b i) 22) 761 =? 672) && is_pvl (a_pro_itype (enc_stp_pre a b i)).
+Lemma stp_pre_fields_all : all3 12 12 128 (fun a' b' i => stp_pre_ok (19 + a') (19 + b') i) = true.
 Proof. vm_compute. reflexivity. Qed.
-Lemma stp_off_fields_all : all3 32 32 128 (fun a b i => pair_fields 2835349504 2 a b i &&
-   (N.land (N.shiftr (enc_stp_off a b i) 22) 761 =? 672) && is_pws (a_pro_itype (enc_stp_off a b i))) = true.
+Definition stp_off_ok (a b i : N) : bool := pair_fields 2835349504 2 a b i &&
+   (N.land (N.shiftr (enc_stp_off a b i) 22) 761 =? 672) && is_pws (a_pro_itype (enc_stp_off a b i)).
+Lemma stp_off_fields_all : all3 12 12 128 (fun a' b' i => stp_off_ok (19 + a') (19 + b') i) = true.
 Proof. vm_compute. reflexivity. Qed.
-Lemma ldp_post_fields_all : all3 32 32 128 (fun a b i => pair_fields 2831155200 1 a b i &&
+Definition ldp_post_ok (a b i : N) : bool := pair_fields 2831155200 1 a b i &&
    (N.land (N.shiftr (enc_ldp_post a b i) 22) 761 =? 673) && is_evl (a_epi_itype (enc_ldp_post a b i)) &&
-   adjusts_sp (enc_ldp_post a b i)) = true.
+   adjusts_sp (enc_ldp_post a b i).
+Lemma ldp_post_fields_all : all3 12 12 128 (fun a' b' i => ldp_post_ok (19 + a') (19 + b') i) = true.
 Proof. vm_compute. reflexivity. Qed.
-Lemma ldp_off_fields_all : all3 32 32 128 (fun a b i => pair_fields 2839543808 2 a b i &&
-   (N.land (N.shiftr (enc_ldp_off a b i) 22) 761 =? 673) && is_evl (a_epi_itype (enc_ldp_off a b i))) = true.
+Definition ldp_off_ok (a b i : N) : bool := pair_fields 2839543808 2 a b i &&
+   (N.land (N.shiftr (enc_ldp_off a b i) 22) 761 =? 673) && is_evl (a_epi_itype (enc_ldp_off a b i)).
+Lemma ldp_off_fields_all : all3 12 12 128 (fun a' b' i => ldp_off_ok (19 + a') (19 + b') i) = true.
 Proof. vm_compute. reflexivity. Qed.
 
 (* sub sp / add sp / add x29: 4096 immediates x 2 shifts *)
